@@ -17,6 +17,7 @@ func Spec() ev.Spec {
 
 func body(r *ev.Run) {
 	r.Rule("a peer-book sequence is non-trivial if it contains at least one refusal (banned / per-host / total) and at least one done of an admitted peer; " +
+		"one outbound/persistent peer in ten stops half way through the handshake (it sends its version and never acknowledges the service's); " +
 		"re-ban cases: a host is banned (3 s), the ban elapses with no connection attempt of that host, a peer of the host connected since before gets it banned again, and a newcomer of that host asks for admission at once; " +
 		"a connection-manager scenario is non-trivial if at least one dial was refused and at least one Disconnect/Remove was issued; " +
 		"distinct = distinct (flavour, length bucket, set of refusal reasons and limit states reached) resp. (flavour, target, refusal rate, ban configuration, rounds)")
